@@ -48,7 +48,37 @@ fn replay_one(prop: &str, doc: &Value) -> Result<Option<Found>, String> {
     }
 }
 
+/// Gives this worker a private tmpfs at a *fixed* path (own mount namespace), so that
+/// every locator - and with it every HashMap order and implicit component name that
+/// depends on the absolute location - is identical in every worker and in every replay.
+/// Falls back to the per-worker scratch directory when namespaces are unavailable.
+fn enter_private_ws() -> bool {
+    const WS: &str = "/dev/shm/oalsim-ws";
+    if env("OALSIM_NO_NAMESPACE").is_some() {
+        return false;
+    }
+    unsafe {
+        if libc::unshare(libc::CLONE_NEWNS) != 0 {
+            return false;
+        }
+        let root = std::ffi::CString::new("/").unwrap();
+        let none = std::ffi::CString::new("none").unwrap();
+        if libc::mount(none.as_ptr(), root.as_ptr(), std::ptr::null(), libc::MS_REC | libc::MS_PRIVATE, std::ptr::null()) != 0 {
+            return false;
+        }
+        let _ = std::fs::create_dir_all(WS);
+        let ws = std::ffi::CString::new(WS).unwrap();
+        let tmpfs = std::ffi::CString::new("tmpfs").unwrap();
+        if libc::mount(tmpfs.as_ptr(), ws.as_ptr(), tmpfs.as_ptr(), 0, std::ptr::null()) != 0 {
+            return false;
+        }
+    }
+    std::env::set_var("OALSIM_SCRATCH", WS);
+    true
+}
+
 fn main() {
+    let fixed_ws = enter_private_ws();
     // Panics of the code under test are caught and reported by the simulators;
     // keep stderr quiet unless asked.
     if env("OALSIM_PANIC_TRACE").is_none() {
@@ -114,7 +144,8 @@ fn main() {
         agg.add(i, r);
         i += stride;
     }
-    let doc = agg.to_json();
+    let mut doc = agg.to_json();
+    doc["fixed_ws"] = json!(fixed_ws);
     std::fs::write(&out, serde_json::to_string(&doc).unwrap()).unwrap_or_else(|e| {
         eprintln!("oalsim: cannot write {out}: {e}");
         std::process::exit(2)
